@@ -76,6 +76,11 @@ template <int S> static void part_a(Ctx &c, long &id) {  // all permutations of 
     do { typename Setup<S>::WS w; Eigen::VectorXd g; PermExec pe{&perm}; const double cp = s.opt->evaluate(x, g, s.tc, s.wc, s.rc, &w, pe); ++c.st.comparisons; ++nperm;
       if (!bits_equal(cp, c0) || g.size() != g0.size() || !bits_equal(g.data(), g0.data(), g.size())) { c.st.violate(unit, fmt("%s N=%d K=%d: executor order %s gives a cost/gradient that is not bit-identical to serial execution", order_name(S), N, K, sched_str(perm).c_str()), {{"what", "executor-order"}}); break; }
     } while (std::next_permutation(perm.begin(), perm.end()));
+    // a user-written executor that visits the segments in ascending order (another TYPE than SerialExecutor) at 16 further decision vectors:
+    // a reduction that is re-associated for non-library executors differs only for some inputs
+    { std::vector<int> asc(N); for (int i = 0; i < N; ++i) asc[i] = i; PermExec pe{&asc};
+      for (int j = 1; j <= 16; ++j) { Eigen::VectorXd xj = s.xvec(j), ga, gb; s.fresh(false); typename Setup<S>::WS wa, wb; const double ca = s.opt->evaluate(xj, ga, s.tc, s.wc, s.rc, &wa, SerialExecutor()), cb = s.opt->evaluate(xj, gb, s.tc, s.wc, s.rc, &wb, pe); ++c.st.comparisons;
+        if (!bits_equal(ca, cb) || !bits_equal(ga.data(), gb.data(), ga.size())) { c.st.violate(unit, fmt("%s N=%d K=%d: a user executor visiting the segments in ascending order returns cost %.17g, SerialExecutor %.17g (decision vector #%d)", order_name(S), N, K, cb, ca, j), {{"what", "executor-type"}}); break; } } }
     ++c.st.evaluations; if (!c.st.seen(fmt("a/%d/%d/%d", S, N, K)) && N >= 2) ++c.st.nontrivial; c.st.cls("(a) executor permutations", nperm);
     if (N == 4) c.st.sample(fmt("unit %s: %s N=%d K=%d: all %ld permutations of the segment order vs SerialExecutor, bitwise", unit.c_str(), order_name(S), N, K, nperm));
   }
